@@ -72,3 +72,73 @@ func vfBytesEq(a, b []byte) bool {
 	}
 	return true
 }
+
+// vfNewProc builds a redisProc around an upstream with fake clients (no listener, no goroutines).
+func vfNewProc(cfg *config, addrs ...string) (*redisProc, map[string]*client) {
+	if cfg == nil {
+		cfg = newConfig(&service.Config{})
+	}
+	scope := stats.CreateScope("vf.")
+	p := &redisProc{
+		name:     "vf",
+		cfg:      cfg,
+		stats:    proc.NewStats(scope),
+		logger:   log.New("vf"),
+		cmdHdlrs: make(map[string]*commandHandler),
+	}
+	var hosts []*host.Host
+	for _, a := range addrs {
+		hosts = append(hosts, host.New(a))
+	}
+	p.u = newUpstream(p.cfg, hosts, p.logger, p.stats.Upstream)
+	clients := map[string]*client{}
+	for _, a := range addrs {
+		clients[a] = vfFakeClient()
+	}
+	p.u.clients.Store(clients)
+	p.initCommandHandlers()
+	return p, clients
+}
+
+// vfForwarded counts the requests handed to backends.
+func vfForwarded(clients map[string]*client) int {
+	n := 0
+	for _, c := range clients {
+		n += len(c.pendingReqs)
+	}
+	return n
+}
+
+var vfLowerTab [256]byte
+
+func init() {
+	for i := range vfLowerTab {
+		c := byte(i)
+		if c >= 'A' && c <= 'Z' {
+			c += 32
+		}
+		vfLowerTab[i] = c
+	}
+}
+
+// vfLowerASCII lower-cases ASCII letters through a table (no branch on the byte value, so the
+// executor does not fork per byte).
+func vfLowerASCII(b []byte) []byte {
+	out := make([]byte, len(b))
+	for i := 0; i < len(b); i++ {
+		out[i] = vfLowerTab[b[i]]
+	}
+	return out
+}
+
+func vfHasPrefix(b []byte, p string) bool {
+	if len(b) < len(p) {
+		return false
+	}
+	for i := 0; i < len(p); i++ {
+		if b[i] != p[i] {
+			return false
+		}
+	}
+	return true
+}
